@@ -157,7 +157,7 @@ func c03R1(p *core.Prog, r *core.Report, trav *ssa.Function) {
 	feeds := func(g *ssa.Call) bool {
 		return forwardReaches(p, g, func(c ssa.CallInstruction, argIdx int) bool {
 			gfn := core.CalleeFn(c)
-			if gfn == nil || (gfn != trav && gfn.Name() != "imageCopyBlob") {
+			if gfn == nil || (gfn != trav && canon(gfn) != "imageCopyBlob") {
 				return false
 			}
 			return argIdx == 4
